@@ -3,7 +3,7 @@
    Print Assumptions.  Model: M_Elf (elfexec GetBase/kernelBase/ProgramHeadersForMapping/
    HeaderForFileOffset, binutils findProgramHeader/computeBase/ObjAddr, nm addrInfo).
    Specification: S_Elf (loader model [image]/[load]/[pieceb], "address - bias", symbol lookup). *)
-From PV Require Import M_Elf S_Elf L_Elf L_ElfNm L_ElfSess L_ElfConv.
+From PV Require Import M_Elf S_Elf L_Elf L_ElfNm L_ElfSess L_ElfConv M_ElfGlue S_ElfGlue L_ElfGlue.
 Open Scope Z_scope.
 
 (* [loaded_at ef bias m a p]: ef is ET_DYN/ET_EXEC, p is a linker-made PT_LOAD segment (file bytes,
@@ -198,6 +198,55 @@ Theorem llvm_conversation_paired : forall tool base addrs,
   spec_conv_llvm tool base addrs (fst (llvm_conversation tool base [] addrs)) = true.
 Proof. exact llvm_conversation_paired_lemma. Qed.
 Print Assumptions llvm_conversation_paired.
+
+(* -- the glue around the core (M_ElfGlue): which file, which mapping, which bias reach it -- *)
+(* locateBinaries: when the profile records a build id, a file of the search path replaces the
+   recorded file only if it carries that build id *)
+Theorem locate_build_id : forall files m,
+  gm_buildid m <> ""%string ->
+  locate_file files m = gm_rec m \/ gf_buildid (file_at files (locate_file files m)) = gm_buildid m.
+Proof. exact locate_build_id_lemma. Qed.
+Print Assumptions locate_build_id.
+
+(* profile.Merge: a source mapping lands in a merged mapping with the same key (size rounded to
+   4K, offset, build id or file) and its addresses are rebased by the difference of the starts *)
+Theorem merge_mapping_same_key : forall ms src ms' i d,
+  map_mapping ms src = (ms', i, d) ->
+  exists g, nth_error ms' i = Some g /\ key_eqb (mm_key g) (mm_key src) = true /\ d = mm_start g - mm_start src.
+Proof. exact map_mapping_spec. Qed.
+Print Assumptions merge_mapping_same_key.
+
+(* two runs of one object at biases bs and bg, mappings of the same segment with the same file
+   offset: the rebased address is the same link-time address in the merged mapping's address space *)
+Theorem rebase_preserves_link : forall p bg bs g src a,
+  pieceb (emap_of_mm g) (image p bg) = true -> pieceb (emap_of_mm src) (image p bs) = true ->
+  mm_offset g = mm_offset src ->
+  (a + (mm_start g - mm_start src)) - bg = a - bs.
+Proof. exact rebase_preserves_link_lemma. Qed.
+Print Assumptions rebase_preserves_link.
+
+(* symbolization of one (merged) mapping in fast mode: asked first about an own byte of its
+   identifiable owner segment, every location is looked up in the nm table shifted by the load bias *)
+Theorem symbolize_mapping_bias : forall files m f bias p a0 rest,
+  0 <= mm_file m -> f = file_at files (mm_file m) ->
+  (mm_buildid m = ""%string \/ gf_buildid f = ""%string \/ gf_buildid f = mm_buildid m) ->
+  In p (e_progs (gf_elf f)) -> loaded_at (gf_elf f) bias (emap_of_mm m) a0 p = true ->
+  in_F23 (gf_elf f) p bias (emap_of_mm m) = false -> sole_owner (gf_elf f) p bias a0 = true ->
+  symbolize_mapping files m (a0 :: rest) =
+  map (fun a => (a, addr_info (shift_syms bias (gf_syms f)) a)) (a0 :: rest).
+Proof. exact symbolize_mapping_bias_lemma. Qed.
+Print Assumptions symbolize_mapping_bias.
+
+(* ... and the name found there is a symbol with the greatest start not above the LINK-TIME
+   address a - bias (data symbols: within their size) *)
+Theorem fast_lookup_link_address : forall bias syms a n,
+  0 <= bias -> syms_fit bias syms -> sortedb syms = true ->
+  addr_info (shift_syms bias syms) a = Some n ->
+  exists s, In s syms /\ sy_name s = n /\ sy_addr s <= a - bias /\
+            (forall s', In s' syms -> sy_addr s' <= a - bias -> sy_addr s' <= sy_addr s) /\
+            (sym_is_data s = true -> a - bias < sy_addr s + sy_size s).
+Proof. exact fast_lookup_link_address_lemma. Qed.
+Print Assumptions fast_lookup_link_address.
 
 (* -- the hypotheses are satisfiable -- *)
 (* exe_linux_64 of binutils_test.go (LOAD off 0 vaddr 0x400000 filesz 0x6fc R E; LOAD off 0xe10 vaddr
